@@ -353,16 +353,19 @@ def _arg_types(ctx, argx: ast.AST, tokvar: Optional[str], defined, action_node: 
     return set()
 
 
-def member_list_map(ctx, holder_qual: str) -> Dict[str, Set[str]]:
-    """For a holder class whose __init__ sorts members by isinstance into lists:
-    list attribute -> set of element class quals."""
+def member_dispatch(ctx, holder_qual: str) -> List[Tuple[object, str, int]]:
+    """How a holder class's __init__ sorts members by type into its lists, in test order:
+    [(element class, list attribute, line)].  Two shapes are understood: an if/elif chain of
+    `isinstance(m, K): self.x.append(m)` and a table of (K, self.x) pairs walked by a loop that appends to the
+    first entry whose type matches (`for t, d in table: if isinstance(m, t): d.append(m); break`)."""
     prog = ctx.prog
     ci = prog.cls(holder_qual)
     init = prog.find_method(ci, "__init__")
-    out: Dict[str, Set[str]] = {}
+    out: List[Tuple[object, str, int]] = []
     if init is None:
         return out
-    for n in ast.walk(init[1]):
+    fn = init[1]
+    for n in ast.walk(fn):
         if isinstance(n, ast.If) and isinstance(n.test, ast.Call) and unparse(n.test.func) == "isinstance" \
                 and len(n.test.args) == 2:
             k = prog.resolve_class(n.test.args[1], ci.mod)
@@ -373,7 +376,51 @@ def member_list_map(ctx, holder_qual: str) -> Dict[str, Set[str]]:
                     if isinstance(c, ast.Call) and isinstance(c.func, ast.Attribute) and c.func.attr == "append" \
                             and isinstance(c.func.value, ast.Attribute) and isinstance(c.func.value.value, ast.Name) \
                             and c.func.value.value.id == "self":
-                        out.setdefault(c.func.value.attr, set()).add(k.qual)
+                        out.append((k, c.func.value.attr, n.lineno))
+    if out:
+        return sorted(out, key=lambda x: x[2])
+    # table-driven form
+    for loop in ast.walk(fn):
+        if not (isinstance(loop, ast.For) and isinstance(loop.target, ast.Tuple) and len(loop.target.elts) == 2
+                and all(isinstance(e, ast.Name) for e in loop.target.elts)):
+            continue
+        tv, dv = loop.target.elts[0].id, loop.target.elts[1].id
+        tests = [i for i in loop.body if isinstance(i, ast.If) and isinstance(i.test, ast.Call) and unparse(i.test.func) == "isinstance"
+                 and len(i.test.args) == 2 and unparse(i.test.args[1]) == tv]
+        if len(tests) != 1:
+            continue
+        body = tests[0].body
+        app = [c for st in body for c in ast.walk(st) if isinstance(c, ast.Call) and unparse(c.func) == f"{dv}.append"]
+        first_only = any(isinstance(st, ast.Break) for st in body)
+        if not app or not first_only:
+            continue
+        it = loop.iter
+        if isinstance(it, ast.Call) and isinstance(it.func, ast.Attribute) and it.func.attr == "items":
+            it = it.func.value
+        if isinstance(it, ast.Name):
+            vals = [st.value for st in walk_no_nested(fn) if isinstance(st, ast.Assign) and len(st.targets) == 1
+                    and isinstance(st.targets[0], ast.Name) and st.targets[0].id == it.id]
+            if len(vals) != 1:
+                continue
+            it = vals[0]
+        pairs = []
+        if isinstance(it, (ast.Tuple, ast.List)):
+            pairs = [(e.elts[0], e.elts[1]) for e in it.elts if isinstance(e, ast.Tuple) and len(e.elts) == 2]
+        elif isinstance(it, ast.Dict):
+            pairs = list(zip(it.keys, it.values))
+        for kx, dx in pairs:
+            k = prog.resolve_class(kx, ci.mod)
+            if k is not None and isinstance(dx, ast.Attribute) and isinstance(dx.value, ast.Name) and dx.value.id == "self":
+                out.append((k, dx.attr, kx.lineno))
+    return out
+
+
+def member_list_map(ctx, holder_qual: str) -> Dict[str, Set[str]]:
+    """For a holder class whose __init__ sorts members by isinstance into lists:
+    list attribute -> set of element class quals."""
+    out: Dict[str, Set[str]] = {}
+    for k, attr, _ in member_dispatch(ctx, holder_qual):
+        out.setdefault(attr, set()).add(k.qual)
     return out
 
 
@@ -483,16 +530,39 @@ def rule_marker_chain(ctx, rep: Report, rid="F3"):
             f"{prog.cls('TemplatedType').mod.rel}:{prog.method('TemplatedType', 'to_cpp').lineno}")
 
 
-def _to_cpp_shape(ctx, ci, fn):
+def _to_cpp_shape(ctx, ci, fn, subject: str = "self"):
     """Branches `if self.A: typename = <template>` of a to_cpp method in order ->
-    {attr: (literal skeleton, lineno)}, and the const prefix {attr: text}."""
+    {attr: (literal skeleton, lineno)}, and the const prefix {attr: text}.  A method that hands the work to
+    a helper (`return helper(self, <spelling>)`) is followed into that helper, with the helper's parameter
+    standing for self."""
     prog = ctx.prog
+    # delegation: the only return is a call that receives the subject itself
+    rets = [r for r in walk_no_nested(fn) if isinstance(r, ast.Return) and r.value is not None]
+    if len(rets) == 1 and isinstance(rets[0].value, ast.Call) and not any(isinstance(i, ast.If) for i in fn.body):
+        call = rets[0].value
+        pos = [i for i, a in enumerate(call.args) if isinstance(a, ast.Name) and a.id == subject]
+        target = None
+        if isinstance(call.func, ast.Name):
+            target = ci.mod.functions.get(call.func.id)
+            drop = False
+        elif isinstance(call.func, ast.Attribute) and unparse(call.func.value) in (subject, ci.qual):
+            m = prog.find_method(ci, call.func.attr)
+            target = m[1] if m else None
+            drop = target is not None and not any(unparse(d) == "staticmethod" for d in target.decorator_list)
+        if target is not None and (pos or (isinstance(call.func, ast.Attribute) and unparse(call.func.value) == subject)):
+            params = [a.arg for a in target.args.args]
+            if pos:
+                sub2 = params[pos[0] + (1 if drop else 0)] if pos[0] + (1 if drop else 0) < len(params) else None
+            else:
+                sub2 = params[0]
+            if sub2 is not None:
+                return _to_cpp_shape(ctx, ci, target, sub2)
     folder = Folder(prog, ci.mod, fn, ci)
     branches: Dict[str, Tuple[str, int]] = {}
     const_piece: Dict[str, str] = {}
 
     def exact_self_attr(test) -> Optional[str]:
-        if isinstance(test, ast.Attribute) and isinstance(test.value, ast.Name) and test.value.id == "self":
+        if isinstance(test, ast.Attribute) and isinstance(test.value, ast.Name) and test.value.id == subject:
             return test.attr
         return None
 
@@ -602,13 +672,7 @@ def rule_member_exhaustive(ctx, rep: Report, rid="G5", min_kinds=7):
     ci_members = prog.cls("Class.Members")
     init = prog.method("Class.Members", "__init__")
     # order of isinstance branches (for shadowing)
-    order = []
-    for n in ast.walk(init):
-        if isinstance(n, ast.If) and isinstance(n.test, ast.Call) and unparse(n.test.func) == "isinstance":
-            k = prog.resolve_class(n.test.args[1], ci_members.mod)
-            if k is not None:
-                order.append((n.lineno, k))
-    order.sort(key=lambda x: x[0])
+    order = [(ln, k) for k, _attr, ln in member_dispatch(ctx, "Class.Members")]
     # Class.rule's action
     crule = g.class_rule("Class")
     cact = _action_of(g, crule)
